@@ -134,10 +134,72 @@ fn one_line_layout() -> LayoutCfg {
         lone_cr: false,
         multibyte: false,
         no_sep: false,
+        newline_heavy: false,
+    }
+}
+
+/// One file with many diagnostics, several of them with the same start offset (two
+/// different Errors on one direction keyword) and several produced while iterating
+/// hash containers (unresolved / unused imports, unused declarations)
+fn many_diagnostics_file(s: &mut Src) -> crate::model::FileM {
+    use crate::model::*;
+    let nimports = s.range(2, 6);
+    let imports: Vec<Name> = (0..nimports).map(|i| vec!["p".to_owned(), format!("U{i}")]).collect();
+    let ndecl = s.range(0, 3);
+    let decls = (0..ndecl)
+        .map(|i| DeclM {
+            annos: vec![],
+            name: vec![format!("D{i}")],
+        })
+        .collect();
+    let iface_oneway = s.flip();
+    let nm = s.range(6, 14);
+    let members = (0..nm)
+        .map(|i| {
+            let na = s.range(1, 3);
+            let args = (0..na)
+                .map(|j| ArgM {
+                    dir: Some(if s.flip() { DirM::Out } else { DirM::InOut }),
+                    annos: vec![],
+                    ty: match s.below(3) {
+                        0 => TyM::Prim("int".into()),
+                        1 => TyM::Str,
+                        _ => TyM::Custom(vec!["IBinder".into()]),
+                    },
+                    name: Some(format!("a{j}")),
+                })
+                .collect();
+            IMemberM::Method(MethodM {
+                annos: vec![],
+                oneway: !iface_oneway || s.flip(),
+                ret: if s.chance(1, 4) { TyM::Prim("int".into()) } else { TyM::Void },
+                name: format!("m{i}"),
+                args,
+                trailing_comma: false,
+                code: None,
+            })
+        })
+        .collect();
+    FileM {
+        package: vec!["p".into()],
+        imports,
+        decls,
+        item: ItemM::Interface(InterfaceM {
+            annos: vec![],
+            oneway: iface_oneway,
+            name: "Big".into(),
+            members,
+        }),
     }
 }
 
 pub fn gen_files(s: &mut Src) -> Result<(Vec<(String, String)>, bool), Fail> {
+    if s.chance(1, 4) {
+        let f = many_diagnostics_file(s);
+        let mut z = Src::new(&[]);
+        let case = ProjCase::from_project(crate::model::ProjectM { files: vec![f] }, &mut z, &one_line_layout())?;
+        return Ok((case.files(), true));
+    }
     let mut pc = ProjectCfg::default();
     pc.many_imports = true;
     pc.gen.max_members = 3;
